@@ -65,7 +65,7 @@ def valid_op(rng, src, variant, arch, i):
 
 
 INVALID_KINDS = ["missing_epoch", "missing_epoch_colon_elsewhere", "unparsable", "abs_path", "empty_path", "bad_arch", "src_arch", "bad_category",
-                 "category_disagrees", "srpm_missing_epoch", "srpm_unparsable", "source_with_srpm", "binary_without_srpm"]
+                 "category_disagrees", "srpm_missing_epoch", "srpm_unparsable", "source_with_srpm", "binary_without_srpm", "empty_srpm"]
 
 
 def invalid_op(rng, base, kind):
@@ -119,6 +119,11 @@ def invalid_op(rng, base, kind):
             return invalid_op(rng, base, "abs_path")
         op["srpm"] = op["nevra"]
         op["expect"] = None            # refused by the code, not named by the statement: generic oracle only
+    elif kind == "empty_srpm":
+        if op["category"] == "source":
+            return invalid_op(rng, base, "bad_category")
+        op["srpm"] = ""                # `if srpm_nevra:` is false: filed under its own NEVRA (not named by the statement)
+        op["expect"] = None
     elif kind == "binary_without_srpm":
         if op["category"] == "source":
             return invalid_op(rng, base, "empty_path")
@@ -136,6 +141,13 @@ def mutated_op(rng, base):
     op["expect"] = None
     op["why"] = "mutated:" + f
     return op
+
+
+KF_BUDGET = {"empty_path": 18, "missing_epoch_colon_elsewhere": 18}
+
+
+def reset_budget():
+    KF_BUDGET.update({"empty_path": 18, "missing_epoch_colon_elsewhere": 18})
 
 
 def gen_ops(rng, tier, n=None, valid_only=False):
@@ -165,7 +177,15 @@ def gen_ops(rng, tier, n=None, valid_only=False):
         if not valid_only:
             r2 = rng.random()
             if r2 < 0.22:
-                op = invalid_op(rng, op, INVALID_KINDS[rng.randrange(len(INVALID_KINDS))])
+                kind = INVALID_KINDS[rng.randrange(len(INVALID_KINDS))]
+                if kind in KF_BUDGET:
+                    # inputs that meet the two known findings: a bounded number per run (the pipeline stops consuming
+                    # cases after 50 recorded failures, known or not)
+                    if rng.random() < 0.9 or KF_BUDGET[kind] <= 0:
+                        kind = "abs_path" if kind == "empty_path" else "missing_epoch"
+                    else:
+                        KF_BUDGET[kind] -= 1
+                op = invalid_op(rng, op, kind)
             elif r2 < 0.32:
                 op = mutated_op(rng, op)
         if op.get("why") in ("valid", "repeat", "elsewhere", "overwrite"):
